@@ -64,13 +64,37 @@ func EnumCase(r *rand.Rand, name string, o EnumOpts) (*Case, string) {
 	}
 	kinds := []string{"int", "int", "string", "uint8", "int8", "uint64", "float64", "int32"}
 	sk, tk := kinds[r.Intn(len(kinds))], kinds[r.Intn(len(kinds))]
-	nameMode := []string{"same", "same", "prefix", "mapped"}[r.Intn(4)]
+	nameMode := []string{"same", "same", "prefix", "mapped", "custom"}[r.Intn(5)]
+	unexported := "" // "", "same" (output in the enums' package), "foreign"
 	if samePkg && nameMode == "same" {
 		nameMode = "prefix" // constants of two enums in one package cannot share names
 	}
 	sp, tp := "", ""
 	if nameMode != "same" {
 		sp, tp = "Color", "Paint"
+	}
+	if nameMode == "custom" {
+		sp, tp = "Col", ""
+		if samePkg {
+			tp = "P" // two enums in one package need distinct names: Col* -> P* is not expressible by trim-prefix
+			nameMode = "prefix"
+			sp, tp = "Color", "Paint"
+		}
+	}
+	if r.Intn(6) == 0 {
+		// unexported members: usable only when the code is emitted into the enums' own package
+		if samePkg && r.Intn(2) == 0 {
+			unexported = "same"
+		} else {
+			unexported = "foreign"
+		}
+		sp = strings.ToLower(sp[:min(1, len(sp))]) + sp[min(1, len(sp)):]
+		if sp == "" {
+			sp = "m"
+			if nameMode == "same" {
+				tp = "m"
+			}
+		}
 	}
 	n := 2 + r.Intn(4)
 	var sm, tm []enumMember
@@ -112,8 +136,14 @@ func EnumCase(r *rand.Rand, name string, o EnumOpts) (*Case, string) {
 	var transforms [][2]string
 	mustFail := ""
 	if nameMode == "prefix" {
-		transforms = append(transforms, [2]string{"^Color(\\w+)$", "Paint$1"})
-		methLines = append(methLines, "enum:transform regex ^Color(\\w+)$ Paint$1")
+		pat := "^" + sp + "(\\w+)$"
+		transforms = append(transforms, [2]string{pat, tp + "$1"})
+		methLines = append(methLines, "enum:transform regex "+pat+" "+tp+"$1")
+	}
+	if nameMode == "custom" {
+		transforms = append(transforms, [2]string{"^" + sp, ""})
+		methLines = append(methLines, "enum:transform trim-prefix "+sp)
+		c.Feature("cli", "custom")
 	}
 	if nameMode == "mapped" {
 		for i := 0; i < len(sm); i++ {
@@ -128,8 +158,8 @@ func EnumCase(r *rand.Rand, name string, o EnumOpts) (*Case, string) {
 		}
 	}
 	if nameMode == "prefix" && r.Intn(3) == 0 {
-		transforms = append(transforms, [2]string{"^ColorGreen$", tm[0].name})
-		methLines = append(methLines, "enum:transform regex ^ColorGreen$ "+tm[0].name)
+		transforms = append(transforms, [2]string{"^" + sp + "Green$", tm[0].name})
+		methLines = append(methLines, "enum:transform regex ^"+sp+"Green$ "+tm[0].name)
 	}
 	// one member mapped to an action
 	action := ""
@@ -241,6 +271,22 @@ func EnumCase(r *rand.Rand, name string, o EnumOpts) (*Case, string) {
 	if o.Format == "variables" {
 		cv.OutPkgPath, cv.OutPkgName = "conv", "conv"
 	}
+	if unexported == "same" {
+		// declare the converter inside the enums' package and emit next to it
+		cv.Pkg = ea
+		if o.Format != "variables" {
+			cv.Lines = append(cv.Lines, "output:file ./zz_generated.go")
+		}
+		cv.OutPkgPath, cv.OutPkgName = "ea", "ea"
+		c.Pkgs = []*Package{ea}
+	}
+	if unexported == "foreign" {
+		// members that the output package cannot name: goverter does not even see them when the package is loaded
+		// from export data, so the type may or may not count as an enum. Not judged beyond "compiles if generated".
+		c.Feature("nojudge", "true")
+		mustFail = ""
+	}
+	c.Feature("unexported", unexported)
 	flags := vref.Flags{EnumUnknown: unknown}
 	me := &Method{Name: "ME", Params: []Param{{Name: "source", T: Named(KA), Role: "source"}}, Result: Named(KB), HasErr: needErr, Lines: methLines,
 		Spec: &vref.MethodSpec{Name: "ME", Roles: []string{"source"}, Flags: flags, HasErr: needErr}}
@@ -296,7 +342,7 @@ func EnumCase(r *rand.Rand, name string, o EnumOpts) (*Case, string) {
 	enums[pair.Tgt] = mk(tm)
 	cv.Spec = &vref.Spec{Seed: o.Seed, NValues: nv, Monitors: []string{"value"}, Conv: flags, Enums: enums, EnumPairs: []*vref.EnumPair{pair}}
 	c.Convs = []*Converter{cv}
-	c.Patterns = []string{"./conv"}
+	c.Patterns = []string{"./" + cv.Pkg.Path}
 	c.Feature("names", nameMode)
 	c.Feature("kinds", sk+"->"+tk)
 	c.Feature("unknown", unknownClass(unknown))
